@@ -72,8 +72,21 @@ PARTIAL = ['clause "a well-formed document to which a single unmatched delimiter
            '(correspondence + oracle only): an opening delimiter inserted in a $ $ / $$ $$ formula, a math delimiter '
            'inserted in math mode, paths that CONTINUE below a braced macro argument, specials arguments '
            '(delimited arguments: closing tokens only), verbatim environments as the inserted '
-           'delimiter, insertion points inside an item, and the derivation of the hypotheses on the faulted text from '
-           'ok_doc2 of the original document. Proved in Coq for every string: '
+           'delimiter, insertion points inside an item. The hypotheses on the faulted text are DERIVED from ok_doc2 of the '
+           'ORIGINAL document (d = l1 ++ l2, tr; the delimiter inserted after l1 and optional whitespace, top level) by '
+           'C05_fault_opening2_doc_partial / C05_fault_opening2_doc_brace_partial under boolean side conditions: no specials '
+           'sequence of the context contains } (no_special_char cx 125); the insertion point is insensitive (ins_point_ok: the '
+           'beginning of the document, or right behind a braced group / an environment, or right behind a text run that starts '
+           'the document or follows such an item when the first inserted character occurs in no specials sequence); the '
+           'delimiter\'s own conditions (open_side2 with no items in front: whitespace without paragraph break, a math delimiter '
+           'outside math mode and $ not directly followed by $, \\begin{name} resolved with well-formed arguments); the rest l2 of '
+           'the document well formed as the BODY of the new construct in its state (automatic for {; in math mode for math '
+           'delimiters / math environments). Behind them: C05_follow_barrier_partial (no side condition of the extended grammar '
+           'looks past a closing brace: ok_items2 l (A ++ } ++ F) does not depend on F) and C05_insertion_point_partial. NOT '
+           'derived from ok_doc2 (follow-string hypotheses of C05_fault_opening2_partial still needed; '
+           'C05_fault_opening2_doc_point_needed: a%b + { is ACCEPTED): insertion points behind a macro call, a specials sequence, '
+           'a comment, a paragraph break, a formula, a verbatim macro / environment, and all NESTED insertion points. '
+           'Proved in Coq for every string: '
            'C05_no_other_exception(_run, _any_fuel), C05_result_shape, C05_errors_located(_top), C05_error_line_col',
            'C05_no_other_exception allows OutOfFuel as an outcome of the model: termination is a theorem of C06, not of C05',
            'the lineno/colno annotation of _ParsingContext.__exit__ is not part of the parser model (errors carry only pe_pos): '
